@@ -1,4 +1,6 @@
 import XmpModel.MixLinear
+import XmpModel.MixKernel
+import XmpModel.MixKernelPaula
 /-! Native driver for the C14 correspondence: evaluates `Xmp.MixLinear` on the case lines
 written by harness/c14_mixlinear.c (one answer line per case line).
 
@@ -13,6 +15,15 @@ written by harness/c14_mixlinear.c (one answer line per case line).
   vt <stereo> <ticksize> <interpAbove> <oldvl> <oldvr> <sleft> <sright> <acflag> <kind> <vol> <pan>
      <mvol> <mvolbase> <ackernel> <lsh> <nsegs> { <count> <hasdata> <acafter|-1> <stop> <samples…> }
                                                 -> oldvl oldvr sleft sright acflag | words of the tick
+  k2 <interp> <id> <count> <vl> <vr> <step> <ramp> <dl> <dr> <posM> <posE> <oldvl> <oldvr>
+     <l1> <l2> <r1> <r2> <a0> <b0> <b1> <nseg> { <base> <n> <samples…> } <nbuf> <buffer words before…>
+                                                -> l1 l2 r1 r2 | buffer words after   (`Xmp.MixKernel.run`, bit-exact:
+                                                   kernel `mixerset[id]` of `s->interp = interp`, `vi->pos = posM·2^posE`,
+                                                   `sptr[base … base+n-1]` = samples of each window, 0 elsewhere)
+  pk <stereo> <tab> <count> <vl> <vr> <step> <posM> <posE> <end> <glob> <remM> <remE> <fdivM> <fdivE>
+     <nbleps> { <level> <age> } <nseg> { <base> <n> <samples…> } <nbuf> <buffer words before…>
+                                                -> glob remM remE nbleps { level age } | buffer words after
+                                                   (`Xmp.MixKernel.Paula.prun`, bit-exact Paula kernel; doubles as m·2^e)
 -/
 open Xmp Xmp.MixLinear
 
@@ -46,6 +57,15 @@ def parseSegs (stereo : Bool) : Nat → List String → List Seg
       :: parseSegs stereo k (rest.drop nw)
   | _, _ => []
 
+/-- `<base> <n> <n values>` repeated: windows of the sample memory -/
+def parseSmpSegs : Nat → List String → List (Int × Array Int) × List String
+  | 0, rest => ([], rest)
+  | k + 1, base :: n :: rest =>
+    let n := pNat n
+    let r := parseSmpSegs k (rest.drop n)
+    ((pInt base, ((rest.take n).map pInt).toArray) :: r.1, r.2)
+  | _, rest => ([], rest)
+
 def answer (ws : List String) : Option String :=
   match ws with
   | "sum" :: k :: n :: rest =>
@@ -77,6 +97,48 @@ def answer (ws : List String) : Option String :=
                      acKernel := pBool ack, lsh := pNat lsh, segs := parseSegs stereo (pNat nsegs) rest }
     let r := voiceTick cfg s0 i
     some s!"{r.2.oldVl} {r.2.oldVr} {r.2.sleft} {r.2.sright} {if r.2.ac then 1 else 0} | {framesOut stereo r.1}"
+  | "k2" :: ip :: id :: count :: vl :: vr :: step :: ramp :: dl :: dr :: posm :: pose :: ovl :: ovr ::
+      l1 :: l2 :: r1 :: r2 :: a0 :: b0 :: b1 :: nseg :: rest =>
+    let (segs, rest) := parseSmpSegs (pNat nseg) rest
+    let smp : Int → Int := fun i =>
+      match segs.find? (fun sg => decide (sg.1 ≤ i) && decide (i < sg.1 + sg.2.size)) with
+      | some sg => sg.2.getD (i - sg.1).toNat 0
+      | none => 0
+    let nb := pNat (rest.headD "0")
+    let buf : Buf := ((rest.drop 1).take nb).map fun w => BitVec.ofNat 32 (pNat w)
+    let spec := Xmp.MixKernel.specOf (pNat ip) (pNat id)
+    let v : Xmp.MixKernel.KVoice := {
+      smp := smp, pos := Xmp.MixKernel.posInt (pInt posm) (pInt pose),
+      frac := Xmp.MixKernel.posFrac (pInt posm) (pInt pose), oldVl := pInt ovl, oldVr := pInt ovr,
+      flt := { l1 := pInt l1, l2 := pInt l2, r1 := pInt r1, r2 := pInt r2, a0 := pInt a0, b0 := pInt b0, b1 := pInt b1 } }
+    let a : Xmp.MixKernel.KArgs := {
+      count := pNat count, vl := pInt vl, vr := pInt vr, step := pInt step, ramp := pNat ramp,
+      dl := pInt dl, dr := pInt dr }
+    let r := Xmp.MixKernel.run spec v a buf
+    some (s!"{r.2.l1} {r.2.l2} {r.2.r1} {r.2.r2} | " ++ " ".intercalate (r.1.map fun x => toString x.toNat))
+  | "pk" :: st :: tab :: count :: vl :: vr :: step :: posm :: pose :: endp :: glob :: remm :: reme :: fdm :: fde :: nbl :: rest =>
+    let nb := pNat nbl
+    let bl := (pairs true ((rest.take (2 * nb)).map pInt))
+    let rest := rest.drop (2 * nb)
+    let nseg := pNat (rest.headD "0")
+    let (segs, rest) := parseSmpSegs nseg (rest.drop 1)
+    let smp : Int → Int := fun i =>
+      match segs.find? (fun sg => decide (sg.1 ≤ i) && decide (i < sg.1 + sg.2.size)) with
+      | some sg => sg.2.getD (i - sg.1).toNat 0
+      | none => 0
+    let nbuf := pNat (rest.headD "0")
+    let buf : Buf := ((rest.drop 1).take nbuf).map fun w => BitVec.ofNat 32 (pNat w)
+    let ps : Xmp.MixKernel.Paula.PState := {
+      glob := pInt glob, bleps := bl, rem := { m := pNat remm, e := pInt reme }, fdiv := { m := pNat fdm, e := pInt fde } }
+    let v : Xmp.MixKernel.Paula.PVoice := {
+      smp := smp, pos := (Xmp.MixKernel.posInt (pInt posm) (pInt pose)) % 2 ^ 32,
+      frac := Xmp.MixKernel.posFrac (pInt posm) (pInt pose), end_ := (pInt endp) % 2 ^ 32, st := ps }
+    let a : Xmp.MixKernel.Paula.PArgs := {
+      count := pNat count, vl := pInt vl, vr := pInt vr, step := pInt step, stereoOut := pBool st, tab := pBool tab }
+    let r := Xmp.MixKernel.Paula.prun v a buf
+    let rc := r.2.rem.canon
+    let bs := " ".intercalate (r.2.bleps.map fun b => s!"{b.1} {b.2}")
+    some (s!"{r.2.glob} {rc.m} {rc.e} {r.2.bleps.length} {bs} | " ++ " ".intercalate (r.1.map fun x => toString x.toNat))
   | _ => none
 
 partial def loop (h : IO.FS.Stream) (out : IO.FS.Stream) : IO Unit := do
